@@ -1,5 +1,21 @@
 """C04 — views and in-place updates mirror NumPy's memory semantics."""
+import json
+import os
+import subprocess
+
 from lib.checkdef import default_replay_cmd, run_property
+from lib.report import REPO, VENV_PY, VERIF
+
+
+def _replay(rep, r):
+    if not r.name.startswith("C04.copy"):
+        return None, False, None
+    env = dict(os.environ, PYTHONPATH=os.path.join(REPO, "src") + os.pathsep + VERIF)
+    p = subprocess.run([VENV_PY, os.path.join(VERIF, "runtime", "c04_replay.py"), r.name], capture_output=True, text=True, env=env, timeout=300)
+    lines = [l for l in p.stdout.splitlines() if l.startswith("{")]
+    out = json.loads(lines[-1]) if lines else dict(confirmed=False, note=p.stderr[-300:])
+    path = rep.write_replay(r.name, dict(obligation=r.to_json(), solver_output=r.model, confirmed=out.get("confirmed", False), replay=out))
+    return path, out.get("confirmed", False), out
 
 
 def run(tier, seed):
@@ -7,6 +23,7 @@ def run(tier, seed):
         "C04", tier, seed, level="other",
         deductive=[("c04_graph", None)],
         bounded=[("graph_bounded.py", ["--check", "C04"]), ("graph_bounded.py", ["--check", "C04h"])],
+        replay=_replay,
         trusted=["NumPy itself (values, np.shares_memory, ownership) is the specification of every statement", "pyvc heap model of Tensor/Operation fields"],
         assumptions=[
             "deductive part: mirror_tensor, reroute_ops_through and make_placeholder_tensor (the primitives every in-place update is built from) for arbitrary "
